@@ -25,15 +25,20 @@ Every shard imports only one of TensorFlow / JAX (even shards: TF, odd shards: J
 from __future__ import annotations
 
 import math
+import os
 import sys
-import time
 
-import numpy as np
-from hypothesis import strategies as st
+# the native permanent opens an OpenMP team of up to 4 x hardware_concurrency threads on
+# every call; spinning waits make that very slow on a shared machine
+os.environ.setdefault("OMP_WAIT_POLICY", "passive")
+os.environ.setdefault("GOMP_SPINCOUNT", "0")
 
-from lib import bootstrap, progs
-from lib import c10_core as K
-from lib.harness import VERIF as _VERIF, Part, Violation
+import numpy as np  # noqa: E402
+from hypothesis import strategies as st  # noqa: E402
+
+from lib import bootstrap, progs  # noqa: E402
+from lib import c10_core as K  # noqa: E402
+from lib.harness import VERIF as _VERIF, Part, Violation  # noqa: E402
 
 pq = bootstrap.load()
 
@@ -80,6 +85,9 @@ ASSUMPTIONS = [
 FLOORS = {}
 
 RTOL, ATOL = 1e-5, 1e-7
+# Debug / sensitivity aid: C10_PARTS=rule_matrices,tf_eager restricts a run to the named
+# parts (independent parts: own Hypothesis seeds, own budgets).
+_ONLY_PARTS = [p for p in os.environ.get("C10_PARTS", "").split(",") if p]
 
 # --------------------------------------------------------------------------------------
 # which framework does this process serve?
@@ -441,6 +449,15 @@ def gate_pool(fw, mode, batch):
     return pool
 
 
+def jax_batch_normalize_cases(tier):
+    circ = {"d": 1, "cutoff": 3,
+            "batch": [{"prep": {"kind": "vacuum"}, "gates": []},
+                      {"prep": {"kind": "number", "occ": [1]}, "gates": []}],
+            "gates": [{"g": "Displacement", "modes": [0]}],
+            "out": {"kind": "mean_photon", "normalize": True}}
+    return [{"fw": "jax", "mode": "eager", "circ": circ, "points": [[0.3, 0.2]]}]
+
+
 def tf_linear_cases(tier):
     base = {"d": 2, "cutoff": 4, "prep": {"kind": "vacuum"},
             "gates": [{"g": "Squeezing2", "modes": [0, 1]}],
@@ -507,6 +524,11 @@ def circuit_case(draw, fw, modes, max_gates=6, max_d=3, max_cutoff=7, max_points
         out["seed"] = draw(st.integers(0, 2**20))
     if kind != "norm":
         out["normalize"] = draw(st.sampled_from([False, False, True]))
+    if fw == "jax" and batch and out.get("normalize"):
+        # BatchPureFockState.normalize hands a Python list to jnp.sqrt -> TypeError under
+        # the JAX connector (bucket C10:jax:eager:raises:TypeError:batch, part
+        # jax_batch_normalize); excluded here so that the search continues behind it
+        out["normalize"] = False
     circ["out"] = out
     k = len(K.slots(circ))
     if k == 0:
@@ -637,6 +659,7 @@ def prop_perm(case, ctx):
                 f"{np.array2string(exp, precision=6)} ({how})")
 
     fd = perm_fd_grads(A, rows, cols) if total <= case.get("fd_max_total", 8) else None
+    odd = case["seed"] % 2
     for part in ("re", "im"):
         G = F["grad_" + part](jA, jr, jc)
         if fd is not None:
@@ -645,22 +668,26 @@ def prop_perm(case, ctx):
                     f"jax.grad of {part} perm")
             ctx.count("perm_fd_compared")
         compare(G, expected[part], tol_exact, "grad-vs-analytic", f"jax.grad of {part} perm")
-        compare(F["jit_" + part](jA, jr, jc), expected[part], tol_exact, "jit-vs-analytic",
-                f"jit(grad) of {part} perm")
-    # vmap over a batch of matrices (eager for Re, jitted for Im)
-    As = np.stack([A, A * (0.5 + 0.25j), A + 0.1])
-    for part, fac in (("re", 1.0), ("im", -1j)):
-        Gs = np.asarray(F["vmap_" + part](jnp.asarray(As), jr, jc))
-        for b in range(len(As)):
-            Gb, Sb = perm_analytic_grad(As[b], rows, cols, exact=total <= 8)
-            compare(Gs[b], fac * Gb, 1e-9 * (1.0 + Sb), "vmap-vs-analytic",
-                    f"vmap(grad {part} perm)[{b}]")
-    # Jacobians: holomorphic, and of the stacked (Re, Im) output (vmap over cotangents)
-    compare(F["jac"](jA, jr, jc), G_exact, tol_exact, "jacobian-vs-analytic",
-            "jacrev(perm, holomorphic=True)")
-    Jri = np.asarray(F["jac_ri"](jA, jr, jc))
-    compare(Jri[0], expected["re"], tol_exact, "jacobian-vs-analytic", "jacrev([Re,Im] perm)[0]")
-    compare(Jri[1], expected["im"], tol_exact, "jacobian-vs-analytic", "jacrev([Re,Im] perm)[1]")
+    # the remaining transformations alternate between Re and Im with the seed parity
+    part, fac = (("re", 1.0), ("im", -1j))[odd]
+    compare(F["jit_" + part](jA, jr, jc), expected[part], tol_exact, "jit-vs-analytic",
+            f"jit(grad) of {part} perm")
+    As = np.stack([A * (0.5 + 0.25j), A + 0.1])
+    Gs = np.asarray(F["vmap_" + part](jnp.asarray(As), jr, jc))
+    for b in range(len(As)):
+        Gb, Sb = perm_analytic_grad(As[b], rows, cols, exact=total <= 8)
+        compare(Gs[b], fac * Gb, 1e-9 * (1.0 + Sb), "vmap-vs-analytic",
+                f"vmap(grad {part} perm)[{b}]")
+    # Jacobians: holomorphic, or of the stacked (Re, Im) output (vmap over cotangents)
+    if odd:
+        compare(F["jac"](jA, jr, jc), G_exact, tol_exact, "jacobian-vs-analytic",
+                "jacrev(perm, holomorphic=True)")
+    else:
+        Jri = np.asarray(F["jac_ri"](jA, jr, jc))
+        compare(Jri[0], expected["re"], tol_exact, "jacobian-vs-analytic",
+                "jacrev([Re,Im] perm)[0]")
+        compare(Jri[1], expected["im"], tol_exact, "jacobian-vs-analytic",
+                "jacrev([Re,Im] perm)[1]")
 
 
 def _shuffled(cases, seed):
@@ -1059,6 +1086,9 @@ def parts(tier):
                  budget_s={"quick": 120, "thorough": 1200}),
             Part("perm_large", prop_perm_large, strategy=perm_large_case(),
                  examples=ex(24, 600), budget_s={"quick": 20, "thorough": 3000}),
+            Part("jax_batch_normalize", prop_circuit, kind="enum",
+                 cases=lambda t: _mine(jax_batch_normalize_cases(t)),
+                 budget_s={"quick": 60, "thorough": 600}),
             Part("jax_eager", prop_circuit, strategy=circuit_case("jax", JAX_EAGER),
                  examples=ex(20, 400), budget_s={"quick": 100, "thorough": 6000}),
             Part("jax_jit", prop_circuit,
@@ -1066,4 +1096,9 @@ def parts(tier):
                  examples=ex(8, 100), budget_s={"quick": 70, "thorough": 6000},
                  shrink=False),
         ]
+    if _ONLY_PARTS:
+        ps = [p for p in ps if p.name in _ONLY_PARTS]
+    if os.environ.get("C10_NOSHRINK"):  # sensitivity runs only need the bucket
+        for p in ps:
+            p.shrink = False
     return ps
